@@ -40,8 +40,10 @@ def gen_cases(tier, seed):
     # services
     replies = ["ok", "ok", "silence", "wrongcs", "sibling", "late"] + [f"err:{c}" for c in (1, 2, 255, rng.randrange(3, 255))]
     for chunk in range(8 if tier == "quick" else 60):
-        ops = []
         ident = [rng.getrandbits(32) for _ in range(4)]
+        # every other sequence of services follows a fast scan by the same master object
+        nid = 255 if chunk % 2 else rng.choice([255, 5])
+        ops = [{"name": "fast_scan"}] if chunk % 2 else []
         for _ in range(40):
             name = rng.choice(["switch_global", "configure_node_id", "configure_bit_timing", "store", "activate",
                                "inquire_node_id", "inquire_address", "switch_selective"])
@@ -60,7 +62,7 @@ def gen_cases(tier, seed):
                 op["ids"] = ident if rng.random() < 0.6 else [rng.getrandbits(32) for _ in range(4)]
                 op["reply"] = rng.choice(["ok", "ok", "silence"])
             ops.append(op)
-        cases.append({"ident": ident, "nid": rng.choice([255, 5]), "ops": ops})
+        cases.append({"ident": ident, "nid": nid, "ops": ops})
     # configure node ids 0..255 and bit timing indexes 0..255 with an accepting slave
     ops = [{"name": "configure_node_id", "args": [n], "reply": "ok"} for n in range(256)]
     ops += [{"name": "configure_bit_timing", "args": [n], "reply": "ok"} for n in range(256)]
